@@ -552,7 +552,7 @@ def _run(ctx: Ctx) -> None:
     V3 = ["i1", "s1", "null"]
     if ctx.quick:
         mains = [(E2, K2, V3, 4, 1, CLI_OPS)]
-        wide = None  # quick: two-argument calls and the neighbouring API are checked in the tree run of step 2
+        wide = None  # quick: two-argument calls are checked in the tree run of step 2, the neighbouring API in thorough
     else:
         mains = [(E2, K2, V3, 5, 1, CLI_OPS), (E1, K2, ["i1", "null"], 3, 2, CLI_OPS)]
         wide = (E1, K2, ["i1", "null"], 3, 2, ALL_OPS)
@@ -588,7 +588,7 @@ def _run(ctx: Ctx) -> None:
 
     # ---- 2. spec -> code: exhaustive trees (machine with the deviations this tree has) -------------
     if ctx.quick:
-        trees = [(E1, K1, ["i1", "null"], 2, 2, ALL_OPS)]
+        trees = [(E1, K1, ["i1", "null"], 2, 2, CLI_OPS)]   # the neighbouring API: thorough tier only
     else:
         trees = [(E1, K2, ["i1", "null"], 3, 1, CLI_OPS),
                  (E2, K1, ["i1", "null"], 3, 1, CLI_OPS), (E1, K1, ["i1", "null"], 3, 1, ALL_OPS),
@@ -609,7 +609,7 @@ def _run(ctx: Ctx) -> None:
 
     phase("trees")
     # ---- 3. spec -> code: long simulated behaviours (one random call per step) ----------------------
-    nsim = ctx.pick(300, 3000)
+    nsim = ctx.pick(250, 3000)
     depth = ctx.pick(7, 9)
     scfg = cfg_text("RSpec", E2, K2, ["i1", "f1", "s1", "null", "true"], depth, 2, CLI_OPS, code_devs, ["Emit"] + STATE_INVS)
     sres = run_tlc("seq/Tags_Gen.tla", scfg, ctx.scratch, workers=1, simulate=f"num={nsim}",
@@ -623,7 +623,7 @@ def _run(ctx: Ctx) -> None:
 
     phase("simulate")
     # ---- 3b. the same calls through the real `redun tag` commands -----------------------------------
-    ntree, nlong = ctx.pick(12, 80), ctx.pick(3, 20)
+    ntree, nlong = ctx.pick(8, 80), ctx.pick(2, 20)
     cli_tree = [b for b in tree_behs if all(st["op"]["n"] in CLI_OPS for st in b["h"])]
     stride = max(1, len(cli_tree) // ntree)
     cli_channel(ctx, cli_tree[::stride][:ntree] + sbehs[:nlong], stats)
@@ -632,7 +632,7 @@ def _run(ctx: Ctx) -> None:
     # ---- 4. code -> spec: random histories validated by TLC ---------------------------------------
     ents3, keys3 = ["e1", "e2"], ["k1", "k2", "k3"]
     toks = ["i1", "i2", "f1", "s1", "sa", "null", "true", "l1", "o1"]
-    batches = [(CLI_OPS, ctx.pick(200, 2000), "cli")]
+    batches = [(CLI_OPS, ctx.pick(150, 2000), "cli")]
     if not ctx.quick:
         batches.append((ALL_OPS, 500, "api"))
     for kinds, ntr, tag in batches:
